@@ -8,6 +8,7 @@
     TreeDrop      flatten / dropLevel: result well formed, leaves unchanged
     TreeRecords   fromRecordsRaw characterised by the records
     TreePaths     root-to-leaf paths of the built tree = the records
+    TreeCommute   dropLevel ∘ fromRecords ≈ fromRecords on the erased column (C17's tree lemma)
   and glues the model's `leafPairs` to `crossPairs`.
 -/
 import CTM.Lemmas.TreeLeaves
@@ -17,6 +18,7 @@ import CTM.Lemmas.TreeAnc
 import CTM.Lemmas.TreeDrop
 import CTM.Lemmas.TreeRecords
 import CTM.Lemmas.TreePaths
+import CTM.Lemmas.TreeCommute
 namespace CTM.RawTree
 variable {t : RawTree}
 
